@@ -6,7 +6,7 @@ from .. import core, femcommon as fc, gen_mesh as gm
 ID = "C05"
 LIMIT = 40.0
 RULE = ("meshes as in C01 (tria + tet, several components, float64) x lump x Dirichlet sets (1..6 indices, at least one per component, "
-        "unsorted, non-constant data) x right-hand sides (scalar 0 / scalar c / vector / column) x optional Neumann data (disjoint from or "
+        "unsorted, non-constant data handed over as float64 / integer / float32 array or plain list) x right-hand sides (scalar 0 / scalar c / vector / column) x optional Neumann data (disjoint from or "
         "overlapping the Dirichlet set); flat meshes with all boundary vertices prescribed for affine reproduction; a malformed stream "
         "(duplicate indices, mismatched lengths, wrong-size h, empty tuples). distinct = hash of the case; non-trivial = >= 2 Dirichlet "
         "vertices with different values, or Neumann data present")
@@ -74,6 +74,13 @@ def generate(rng, tier):
         elif r < 0.4:
             nidx = [didx[0]] + ([rng.randrange(n)] if n > 1 else [])
             nt_ = [nidx, [rng.uniform(-1, 1) for _ in nidx]]
+        # the form in which the Dirichlet values are handed over: float64 array (mostly), integer array, float32 array, plain list
+        dd = rng.choice(["float64", "float64", "float64", "int64", "float32", "list"])
+        if dd == "int64":
+            ddat = [float(rng.randint(-3, 3)) for _ in didx]
+        elif dd == "float32":
+            ddat = [float(np.float32(x)) for x in ddat]
+        c["ddtype"] = dd
         c.update({"didx": didx, "ddat": ddat, "hkind": hk, "h": h, "ntup": nt_, "bad": None,
                   "alpha": rng.uniform(-2, 2), "ddat2": [rng.uniform(-2, 2) for _ in didx]})
         m = rng.random()
@@ -116,7 +123,9 @@ def _args(case, ddat=None, h=None):
         hh = np.array(hh, dtype=float)
     elif hk == "column":
         hh = np.array(hh, dtype=float)[:, None]
-    dt = (np.array(case["didx"], dtype=int), np.array(case["ddat"] if ddat is None else ddat, dtype=float))
+    dd = case.get("ddtype", "float64") if ddat is None else "float64"
+    vals = case["ddat"] if ddat is None else ddat
+    dt = (np.array(case["didx"], dtype=int), [float(x) for x in vals] if dd == "list" else np.array(vals, dtype=float).astype(dd))
     nt = ()
     if case["ntup"] is not None:
         nt = (np.array(case["ntup"][0], dtype=int), np.array(case["ntup"][1], dtype=float))
@@ -132,7 +141,7 @@ def run_impl(case):
         out["A"] = fc.coo_of(s.stiffness)
         out["B"] = fc.coo_of(s.mass)
         hh, dt, nt = _args(case)
-        didx0, ddat0 = dt[0].copy(), dt[1].copy()
+        didx0, ddat0 = dt[0].copy(), np.array(dt[1], copy=True)
         h0 = np.array(hh, copy=True) if isinstance(hh, np.ndarray) else hh
         n0 = tuple(np.array(a, copy=True) for a in nt)
         try:
